@@ -3,7 +3,8 @@ import csv as pycsv, io, json
 from concurrent.futures import ThreadPoolExecutor
 from vlib import *
 
-FMT = {"tsv": 0, "dkvp": 1, "nidx": 2, "csv": 3}
+FMT = {"tsv": 0, "dkvp": 1, "nidx": 2, "csv": 3, "json": 4, "xtab": 5, "csvlite": 6, "pprint": 7}
+WIDTH_FMTS = ("xtab", "pprint")
 
 # separators: (command-line spelling, bytes)
 SEPS1 = [(",", b","), (";", b";"), ("|", b"|"), (":", b":"), ("semicolon", b";"), ("pipe", b"|"), ("comma", b","),
@@ -121,6 +122,56 @@ def gen_write_case(ctx, fmt):
             keys = gen_keys(rng, n, kalpha)
             recs.append([(k, gen_cell(rng, valpha)) for k in keys])
         c["args"], c["recs"] = args, recs
+    elif fmt in ("csvlite", "pprint"):
+        crlf = rng.random() < 0.2
+        headerless = rng.random() < 0.1
+        if fmt == "csvlite":
+            fs = rng.choice([(None, b",")] * 3 + [("semicolon", b";"), ("tab", b"\t"), ("pipe", b"|"), (";;", b";;")])
+            args = ["--ocsvlite"] + (["--ofs", fs[0]] if fs[0] else [])
+            c["seps"] = [fs[1]]
+            excl = fs[1] + b"\n"
+        else:
+            args = ["--opprint"]
+            c["seps"] = []
+            excl = b" \n"
+        args += (["--headerless-csv-output"] if headerless else []) + (["--ors", "crlf"] if crlf else [])
+        c["flags"] = [headerless, crlf]
+        in_dom = rng.random() < 0.85
+        alpha = alpha_without(excl + b"\r") if in_dom else ALPHA_WEIGHTED
+        recs, keys = [], None
+        for i in range(nrec):
+            if keys is None or rng.random() < 0.35:      # schema change (heterogeneity)
+                n = gen_nfields(rng, big and i < 2) if rng.random() > 0.05 else 0
+                keys = gen_keys(rng, n, alpha)
+                if fmt == "pprint" and in_dom:
+                    keys = [k or b"k" for k in keys]
+            recs.append([(k, gen_cell(rng, alpha, empty_p=0.12)) for k in keys])
+        c["args"], c["recs"] = args, recs
+    elif fmt == "xtab":
+        right = rng.random() < 0.2
+        ps = rng.choice([(None, b" ")] * 3 + [("colon", b":"), ("tab", b"\t"), ("::", b"::"), ("equals", b"=")])
+        args = ["--oxtab"] + (["--ops", ps[0]] if ps[0] else []) + (["--xvright"] if right else [])
+        c["flags"] = [right]; c["seps"] = [ps[1]]
+        in_dom = rng.random() < 0.85
+        kalpha = alpha_without(ps[1] + b"\n") if in_dom else ALPHA_WEIGHTED
+        valpha = alpha_without(b"\n") if in_dom else ALPHA_WEIGHTED
+        recs = []
+        for i in range(nrec):
+            n = gen_nfields(rng, big and i < 2) if rng.random() > 0.05 else 0
+            keys = gen_keys(rng, n, kalpha)
+            recs.append([(k, gen_cell(rng, valpha)) for k in keys])
+        c["args"], c["recs"] = args, recs
+    elif fmt == "json":
+        ml, wrap = rng.choice([(True, True), (False, True), (True, False), (False, False)])
+        args = {(True, True): ["--ojson"], (False, True): ["--ojson", "--no-jvstack"], (True, False): ["--ojson", "--no-jlistwrap"],
+                (False, False): ["--ojsonl"]}[(ml, wrap)]
+        c["flags"] = [ml, wrap]; c["seps"] = []
+        recs = []
+        for i in range(nrec):
+            n = gen_nfields(rng, big and i < 2) if rng.random() > 0.07 else 0
+            keys = gen_keys(rng, n, ALPHA_WEIGHTED)
+            recs.append([(k, gen_cell(rng, ALPHA_WEIGHTED)) for k in keys])
+        c["args"], c["recs"] = args, recs
     elif fmt == "nidx":
         crlf = rng.random() < 0.2
         args = ["--onidx"]
@@ -185,6 +236,44 @@ def in_domain(c):
             if r and not crlf and r[-1][1].endswith(b"\r"):
                 return False
         return True
+    if fmt in ("csvlite", "pprint"):
+        if c["flags"][0]:
+            return False        # headerless output is not self-describing (heterogeneity is lost)
+        fs = c["seps"][0] if fmt == "csvlite" else b" "
+        for i, r in enumerate(recs):
+            ks = [k for k, _ in r]
+            if not r or len(set(ks)) != len(ks):
+                return False
+            cells = ks + [v for _, v in r]
+            if any(set(x) & (set(fs) | {10, 13, 44}) for x in cells):
+                return False
+            if fmt == "pprint" and (any(x == b"" for x in ks) or any(v == b"-" for _, v in r)):
+                return False
+            if fmt == "csvlite" and len(r) == 1 and (ks[0] == b"" or r[0][1] == b""):
+                return False    # a single empty field is an empty line, which means schema change
+            if i == 0 and ks[0].startswith(b"\xef"):
+                return False
+        return True
+    if fmt == "xtab":
+        ps = c["seps"][0]
+        if c["flags"][0] and ps != b" ":
+            return False        # --xvright pads values with spaces: only representable when IPS is the space
+        for r in recs:
+            ks = [k for k, _ in r]
+            if not r or len(set(ks)) != len(ks):
+                return False
+            for k, v in r:
+                if set(k) & (set(ps) | {10}) or 10 in v or v.startswith(ps[:1]) or v.endswith(b"\r"):
+                    return False
+                if c["flags"][0] and v.startswith(b" "):
+                    return False
+        return True
+    if fmt == "json":      # JSON text is Unicode: strings of valid UTF-8, distinct member names
+        for r in recs:
+            ks = [k for k, _ in r]
+            if len(set(ks)) != len(ks) or not all(utf8_ok(k) and utf8_ok(v) for k, v in r):
+                return False
+        return True
     if fmt == "nidx":
         fs = c["seps"][0]; crlf = c["flags"][0]
         for r in recs:
@@ -205,10 +294,6 @@ def witness_class(c, got):
     keys = [k for r in recs[:1] for k, _ in r]
     vals = [v for r in recs for _, v in r]
     if fmt == "tsv":
-        if any(set(k) & set(b"\\\t\r\n") for k in keys):
-            return "tsv-header-key-not-decoded"
-        if any(not utf8_ok(x) for x in keys + vals):
-            return "tsv-encoder-invalid-utf8-to-fffd"
         if recs and len(recs[0]) == 1 and (keys[0] == b"" or any(v == b"" for v in vals)):
             return "tsv-single-column-empty-cell"
     if fmt == "csv":
@@ -340,13 +425,16 @@ def cli_crosscheck(ctx, rjobs, n):
             if kind == "hang":
                 timeouts += 1
                 continue
+        if kind == "ok" and recs is None:      # nested values in the JSON-lines rendering: outside the byte-level parser
+            timeouts += 1
+            continue
         ctx.count(("cli", j["fmt"], tuple(j["args"]), j["text"]))
         if (kind, recs) != (j["status"], j["obs"]):
             diff += 1
             if diff <= 2:
                 ctx.violation({"broken": "mlr command line and in-process reader disagree", "args": j["args"], "input_hex": j["text"].hex(),
                                "cli": [kind, repr(recs)[:600], err.decode("latin1")[-300:]], "driver": [j["status"], repr(j["obs"])[:600]]}, found_input=False)
-    ctx.cov["cli_crosscheck"] = {"cases": len(idx), "different": diff, "inconclusive_timeouts": timeouts}
+    ctx.cov["cli_crosscheck"] = {"cases": len(idx), "different": diff, "inconclusive(timeouts or nested output)": timeouts}
 
 
 # ------------------------------------------------------------------ read-side option sets
@@ -375,6 +463,23 @@ def read_variants(ctx, c):
         dd = rng.random() < 0.85
         args = ["--idkvp"] + (["--ifs", sepname(fs), "--ips", sepname(ps)] if (fs, ps) != (b",", b"=") else []) + ([] if dd else ["--no-dedupe-field-names"])
         out.append((args, [False, dd], [fs, ps]))
+    elif fmt in ("csvlite", "pprint"):
+        dd = rng.random() < 0.85
+        rg = rng.random() < 0.15
+        if not c["flags"][0]:
+            if fmt == "csvlite":
+                fs = c["seps"][0]
+                out.append((["--icsvlite"] + (["--ifs", sepname(fs)] if fs != b"," else []) + ([] if dd else ["--no-dedupe-field-names"])
+                            + (["--allow-ragged-csv-input"] if rg else []), [dd, rg], [fs]))
+            else:
+                out.append((["--ipprint"] + ([] if dd else ["--no-dedupe-field-names"]) + (["--allow-ragged-csv-input"] if rg else []), [dd, rg], []))
+    elif fmt == "xtab":
+        ps = c["seps"][0]
+        dd = rng.random() < 0.85
+        out.append((["--ixtab"] + (["--ips", sepname(ps)] if ps != b" " else []) + ([] if dd else ["--no-dedupe-field-names"]), [dd], [ps]))
+    elif fmt == "json":
+        if all(utf8_ok(k) and utf8_ok(v) for r in c["recs"] for k, v in r):   # encoding/json replaces invalid UTF-8: outside the reference
+            out.append((["--ijson"] if rng.random() < 0.7 else ["--ijsonl"], [], []))
     elif fmt == "nidx":
         fs = c["seps"][0]
         if fs == b" " and rng.random() < 0.6:
@@ -402,14 +507,75 @@ def rfc4180_text(rng, rows, comma, style, eol):
     return bytes(out)
 
 
+def gen_json_text(rng):
+    """RFC-8259 text: stream of flat objects with string members, any legal escape spelling and whitespace; sometimes other constructs"""
+    def ws():
+        return b"".join(rng.choice([b" ", b"\n", b"\t", b"\r"]) for _ in range(rng.choice([0, 0, 0, 1, 1, 2])))
+
+    def jstr(b):
+        out = bytearray(b'"')
+        for ch in b.decode("utf-8"):
+            o = ord(ch)
+            r = rng.random()
+            if ch in '"\\':
+                out += b"\\" + ch.encode() if r < 0.8 else b"\\u%04x" % o
+            elif o < 0x20:
+                short = {8: b"\\b", 12: b"\\f", 10: b"\\n", 13: b"\\r", 9: b"\\t"}
+                out += short[o] if o in short and r < 0.6 else (b"\\u%04X" % o if r < 0.8 else b"\\u%04x" % o)
+            elif ch == "/" and r < 0.5:
+                out += b"\\/"
+            elif o < 0x10000 and not (0xD800 <= o <= 0xDFFF) and r < 0.15:
+                out += b"\\u%04x" % o
+            else:
+                out += ch.encode("utf-8")
+        return bytes(out) + b'"'
+    alpha = [p for p in ALPHA_WEIGHTED if utf8_ok(p)] + [b"/", b"\x08", b"\x0c"]
+    objs = []
+    for _ in range(rng.randint(0, 4)):
+        members = []
+        for _ in range(rng.choice([0, 1, 2, 3, 5])):
+            k = rng.choice([b"a", b"b", b"c", gen_cell(rng, alpha, maxlen=3)])
+            v = jstr(gen_cell(rng, alpha)) if rng.random() < 0.93 else rng.choice([b"1", b"true", b"null", b"[1]", b'{"x": "y"}', b"0x1F"])
+            members.append(ws() + jstr(k) + ws() + b":" + ws() + v + ws())
+        objs.append(b"{" + (b",".join(members) if members else ws()) + b"}")
+    if rng.random() < 0.5:
+        return ws() + b"[" + ws() + (b"," + ws()).join(o + ws() for o in objs) + b"]" + ws()
+    return ws() + b"".join(o + ws() + rng.choice([b"\n", b"", b" "]) for o in objs)
+
+
 def gen_extra_read_cases(ctx, n):
     rng = ctx.rng
     jobs = []
     for _ in range(n):
-        kind = rng.choice(["csv-legal", "csv-legal", "csv-legal", "csv-bom", "csv-noeol", "csv-ragged", "csv-implicit", "csv-lazy", "csv-dupkeys",
+        kind = rng.choice(["lite-hand", "pprint-hand", "xtab-hand", "json-hand", "json-hand", "csv-legal", "csv-legal", "csv-legal", "csv-bom", "csv-noeol", "csv-ragged", "csv-implicit", "csv-lazy", "csv-dupkeys",
                            "tsv-hand", "tsv-ragged", "tsv-implicit", "dkvp-hand", "dkvp-repifs", "nidx-ws", "nidx-hand"])
         ctx.dist("read-extra:" + kind)
-        if kind.startswith("csv"):
+        if kind in ("lite-hand", "pprint-hand"):
+            fs = b"," if kind == "lite-hand" else b" "
+            alpha = [p for p in ALPHA_WEIGHTED if b"\n" not in p and b"\r" not in p] + [fs, fs, fs + fs, b"-"] * 8
+            lines = [b"".join(rng.choice(alpha) for _ in range(rng.randint(1, 10))) if rng.random() < 0.85 else b"" for _ in range(rng.randint(1, 7))]
+            if rng.random() < 0.15:
+                lines[0] = b"\xef\xbb\xbf" + lines[0]
+            eol = rng.choice([b"\n", b"\n", b"\r\n"])
+            text = eol.join(lines) + (eol if rng.random() < 0.85 else b"")
+            dd = rng.random() < 0.7
+            rg = rng.random() < 0.4
+            base = ["--icsvlite"] if kind == "lite-hand" else ["--ipprint"]
+            jobs.append({"fmt": "csvlite" if kind == "lite-hand" else "pprint",
+                         "args": base + ([] if dd else ["--no-dedupe-field-names"]) + (["--allow-ragged-csv-input"] if rg else []),
+                         "flags": [dd, rg], "seps": [fs] if kind == "lite-hand" else [], "text": text, "kind": kind})
+        elif kind == "xtab-hand":
+            ps = rng.choice([b" ", b" ", b":", b"::"])
+            alpha = [p for p in ALPHA_WEIGHTED if b"\n" not in p] + [ps, ps + ps, b" "] * 8
+            lines = [b"".join(rng.choice(alpha) for _ in range(rng.randint(0, 10))) if rng.random() < 0.8 else b"" for _ in range(rng.randint(1, 7))]
+            eol = rng.choice([b"\n", b"\n", b"\r\n"])
+            text = eol.join(lines) + (eol if rng.random() < 0.85 else b"")
+            dd = rng.random() < 0.7
+            jobs.append({"fmt": "xtab", "args": ["--ixtab"] + (["--ips", sepname(ps)] if ps != b" " else []) + ([] if dd else ["--no-dedupe-field-names"]),
+                         "flags": [dd], "seps": [ps], "text": text, "kind": kind})
+        elif kind == "json-hand":
+            jobs.append({"fmt": "json", "args": ["--ijson"], "flags": [], "seps": [], "text": gen_json_text(rng), "kind": kind})
+        elif kind.startswith("csv"):
             comma = rng.choice([b",", b",", b";", b"|"])
             ncol = rng.randint(1, 8)
             alpha = ALPHA_WEIGHTED if kind != "csv-lazy" else ALPHA_WEIGHTED
@@ -538,7 +704,19 @@ def t_seps(seps):
     return coq_list([coq_bytes(s) for s in seps])
 
 
+def impl_widths(ctx, strings):
+    strings = sorted(set(strings))
+    rc, out, err = sh([ctx.implrun(), "c01-width"], inp="\n".join(x.hex() for x in strings) + "\n", timeout=300)
+    rows = out.splitlines()
+    if rc != 0 or len(rows) != len(strings):
+        raise RuntimeError(f"implrun c01-width failed rc={rc}: {err[-500:]}")
+    return {x: int(r) for x, r in zip(strings, rows)}
+
+
 def t_write(c, obs):
+    if c["fmt"] in WIDTH_FMTS:
+        tab = coq_list([f"({coq_bytes(x)}, {n}%N)" for x, n in sorted(c["widths"].items()) if n != len(x)])
+        return f"CWriteW {FMT[c['fmt']]}%N {t_flags(c['flags'])} {t_seps(c['seps'])} {tab} {coq_records(c['recs'])} {coq_option(obs, coq_bytes)}"
     return f"CWrite {FMT[c['fmt']]}%N {t_flags(c['flags'])} {t_seps(c['seps'])} {coq_records(c['recs'])} {coq_option(obs, coq_bytes)}"
 
 
@@ -554,7 +732,7 @@ def py_csv_read(text, comma):
 
 def run(ctx):
     quick = ctx.tier == "quick"
-    ctx.cov["rule"] = ("record streams per format (TSV, DKVP, NIDX, CSV): 0-6 records, 1-40 fields, cells from a weighted alphabet (separators, quotes, "
+    ctx.cov["rule"] = ("record streams per format (TSV, DKVP, NIDX, CSV, JSON/JSON Lines, XTAB, csvlite, PPRINT): 0-6 records, 1-40 fields, cells from a weighted alphabet (separators, quotes, "
                        "backslash, CR, LF, CRLF, TAB, NUL, multi-byte and invalid UTF-8, BOM, '-', empty, leading/trailing space) x writer options "
                        "(headerless, --quote-all, --ors crlf, --ofs/--ops custom incl. multi-char and named aliases) x reader options "
                        "(implicit header, ragged, lazy quotes, no-dedupe, repifs, NIDX whitespace regex); plus reader-only texts (any legal RFC-4180 quoting, "
@@ -567,10 +745,10 @@ def run(ctx):
                        "go-csv behaviour after a quoting error inside a record is not modelled (cases skipped and counted)",
                        "comma/IFS bytes below 0x80"]
     forbidden_gate(ctx, ["Base", "C01"])
-    ok, why = check_props(ctx, "C01/Props.v", ["C01/Harness.vo", "C01/ProofsDkvp.vo", "C01/ProofsTsv.vo", "C01/ProofsCsv.vo", "C01/ProofsCsv2.vo"])
+    ok, why = check_props(ctx, "C01/Props.v", ["C01/Harness.vo", "C01/ProofsDkvp.vo", "C01/ProofsTsv.vo", "C01/ProofsCsv.vo", "C01/ProofsCsv2.vo", "C01/ProofsJson.vo", "C01/ProofsXtab.vo", "C01/ProofsLite.vo"])
 
     # ---- generate and run the writers
-    per_fmt = {"tsv": 200, "csv": 260, "dkvp": 140, "nidx": 80} if quick else {"tsv": 4000, "csv": 5000, "dkvp": 3000, "nidx": 1500}
+    per_fmt = {"tsv": 200, "csv": 260, "dkvp": 140, "nidx": 80, "json": 140, "xtab": 120, "csvlite": 140, "pprint": 140} if quick else {"tsv": 4000, "csv": 5000, "dkvp": 3000, "nidx": 1500, "json": 3000, "xtab": 2500, "csvlite": 2500, "pprint": 2500}
     wcases = []
     for fmt, n in per_fmt.items():
         for _ in range(n):
@@ -583,6 +761,10 @@ def run(ctx):
             ctx.dist("fields>=12" if nf >= 12 else "fields<12")
     with ctx.timed("impl_write"):
         wres = impl_write(ctx, wcases)
+    wtab = impl_widths(ctx, [x for c in wcases if c["fmt"] in WIDTH_FMTS for r in c["recs"] for kv in r for x in kv])
+    for c in wcases:
+        if c["fmt"] in WIDTH_FMTS:
+            c["widths"] = {x: wtab[x] for r in c["recs"] for kv in r for x in kv}
     terms, meta = [], []
     for c, (out, err) in zip(wcases, wres):
         obs = None if err else out
@@ -617,9 +799,8 @@ def run(ctx):
     for s, line in zip(codec_inputs, out.splitlines()):
         e, d = (bytes.fromhex(x) for x in (line.split(" ") + [""])[:2])
         terms.append(f"CTsvCodec {coq_bytes(s)} {coq_bytes(e)} {coq_bytes(d)}"); meta.append(("codec", s))
-        terms.append(f"CUtf8 {coq_bytes(s)} {coq_bool(utf8_ok(s))}"); meta.append(("utf8", s))
         ctx.count(("codec", s))
-    ctx.dist("tsv-codec+utf8", len(codec_inputs))
+    ctx.dist("tsv-codec", len(codec_inputs))
     for i in (0, len(wcases) // 2, len(wcases) + 5, len(terms) - 3):
         if 0 <= i < len(meta) and meta[i][0] in ("write", "read"):
             m = meta[i][1]
@@ -630,7 +811,7 @@ def run(ctx):
     if ok:
         with ctx.timed("coq_cases"):
             bad, skipped, cerr = coq_eval2(ctx, "C01", terms, shard=len(terms) // 2 + 1)   # two coqc processes
-        ctx.cov["correspondence"] = {"cases": len(terms), "mismatches": len(bad), "csv_read_cases_not_compared(model: quoting error)": len(skipped)}
+        ctx.cov["correspondence"] = {"cases": len(terms), "mismatches": len(bad), "read_cases_not_compared(csv quoting error / json outside the reference)": len(skipped)}
         if cerr:
             ctx.violation({"broken": "correspondence-evaluation", "detail": cerr[-2000:]}, found_input=False)
     # ---- the property itself on the implementation's outputs (failing-input search)
@@ -724,8 +905,9 @@ def oracle(ctx, wcases, rjobs, already=()):
 
 WITNESSES = [
     # (class, write args, read args, records)
-    ("tsv-header-key-not-decoded", ["--otsv"], ["--itsv"], [[(b"a\\b", b"1")]]),
-    ("tsv-encoder-invalid-utf8-to-fffd", ["--otsv"], ["--itsv"], [[(b"a", b"\xff")]]),
+    # repaired in /repo (d7dac80b0, 6c1ca4524): not known findings any more, a regression is a plain VIOLATION
+    ("regression-of-d7dac80b0-tsv-header-key-not-decoded", ["--otsv"], ["--itsv"], [[(b"a\\b", b"1"), (b"c\td\r\n", b"2")]]),
+    ("regression-of-6c1ca4524-tsv-encoder-invalid-utf8-to-fffd", ["--otsv"], ["--itsv"], [[(b"a\xff", b"\xff\xc3")]]),
     ("tsv-single-column-empty-cell", ["--otsv"], ["--itsv"], [[(b"a", b"")]]),
     ("csv-reader-crlf-in-quoted-field-to-lf", ["--ocsv"], ["--icsv"], [[(b"a", b"x\r\ny")]]),
     ("csv-ors-crlf-writer-drops-cr", ["--ocsv", "--ors", "crlf"], ["--icsv"], [[(b"a", b"x\ry")]]),
